@@ -190,6 +190,22 @@ def run(ck):
                     probs.append(f'zero row {int(dv.argmax())} of {N} decodes to {Pz[int(dv.argmax())].tolist()}, the class frequencies (clamped) are {want.tolist()}')
             for p_ in probs:
                 ck.violation(p_ + f' on {desc}', dict(desc, problem=p_), key=json.dumps(dict(site='converter', mode=mode, what='large-' + p_[:20])))
+    # ---- the binary zero/one converter in the state the logistic leaf solver puts it in (codes are read as logits: `_numerical_type = 'logit_diff'`): the round trip
+    #      decode(encode(labels)) = labels holds there too (the code of class 0 is the logit 0.0, i.e. an exact [1/2, 1/2] row: arg-max takes the first)
+    for trial in range(ck.n(4, 20)):
+        N = int(rng.integers(1, 40)); lab = rng.integers(0, 2, size=N); lt = torch.tensor(lab, dtype=torch.long)
+        conv = ClassificationConverter(mode='zero_one', n_classes=2, labels=torch.tensor([0, 1]))
+        conv._numerical_type = 'logit_diff'
+        enc = conv.labels_to_numerical(lt if trial % 2 else lt.reshape(-1, 1))
+        back = conv.numerical_to_labels(enc).reshape(-1).long()
+        Pb = conv.numerical_to_probas(enc).double().numpy()
+        desc = dict(K=2, mode='zero_one', kind='logit_diff converter', labels=lab.tolist()); ck.case(desc, nontrivial=True); ck.count('logit_diff converter round trip')
+        if not torch.equal(back, lt):
+            bad = int((back != lt).nonzero()[0])
+            ck.violation(f'decode(encode(labels)) != labels on a binary converter whose codes are logits: label {int(lt[bad])} (code {enc.reshape(-1)[bad].item()}) decodes to {int(back[bad])} on {desc}',
+                         dict(desc), key=json.dumps(dict(site='converter', mode='zero_one', what='logit-diff-roundtrip')))
+        if Pb.shape != (N, 2) or not np.all(np.isfinite(Pb)) or np.any(Pb < 0) or np.any(np.abs(Pb.sum(1) - 1) > 1e-5):
+            ck.violation(f'decoding the codes of a logit_diff converter gives an invalid probability row on {desc}', dict(desc), key=json.dumps(dict(site='converter', mode='zero_one', what='logit-diff-valid')))
     res = ck.run_bool_cases('conv', HEADER, cases, shard=12)
     bad = [meta[k] for k, v in res.items() if v is not True]
     ck.obligation(f'correspondence: {len(cases)} real converters: actual _C/_invA/_prior pass converter_okb, encode == model, decode within tolerance of '
